@@ -140,7 +140,8 @@ class Runner:
                 if not isinstance(r, Raised):
                     cat = r
             elif op == 'to_df':
-                r = guarded(cat.to_dataframe)
+                # both forms of the frame: plain, and with the datetime column / index
+                r = guarded(cat.to_dataframe, with_datetime=bool((len(steps) + len(src['evs'])) % 2))
                 if not isinstance(r, Raised):
                     df = r
             elif op == 'from_df':
